@@ -173,6 +173,58 @@ func runC17(c *Ctx) {
 			c.obI("R17.1", fa, "answer-from-current-stream-state", fieldNameOf(n, stt, fa.Field) == "underlying", "HasContent answers from the buffered stream's current state only (Buffered/Peek now): it neither reads nor writes any other field of the reader, so asking again after reads is answered for the bytes that remain", "HasContent accesses field "+stt.Field(fa.Field).Name())
 		}
 	}
+	// "true" needs a byte: a constant true answer is given only under Buffered() > 0 (or len(peeked) > 0)
+	{
+		hasByte := func(cond ssa.Value, branch bool) bool {
+			cnd, b := stripNot(cond, branch)
+			bo, ok := cnd.(*ssa.BinOp)
+			if !ok {
+				return false
+			}
+			k, isK := constInt(bo.Y)
+			if !isK {
+				return false
+			}
+			isCount := false
+			if call := asCall(bo.X); call != nil {
+				if call.Call.IsInvoke() && call.Call.Method.Name() == "Buffered" {
+					isCount = true
+				}
+				if calleeName(&call.Call) == "builtin len" {
+					isCount, _ = allOrigins(call.Call.Args[0], func(o Origin) bool {
+						pk := asCall(o.V)
+						return pk != nil && pk.Call.IsInvoke() && pk.Call.Method.Name() == "Peek"
+					})
+				}
+			}
+			if !isCount {
+				return false
+			}
+			switch {
+			case bo.Op == token.GTR && k == 0, bo.Op == token.GEQ && k == 1, bo.Op == token.NEQ && k == 0:
+				return b
+			case bo.Op == token.LEQ && k == 0, bo.Op == token.LSS && k == 1, bo.Op == token.EQL && k == 0:
+				return !b
+			}
+			return false
+		}
+		for _, r := range realReturns(hc) {
+			for _, o := range originsOf(resOf(r, 0)) {
+				if k, isK := constBool(o.V); isK && k {
+					g := guardedBy(r, nil, hasByte)
+					if phi, isPhi := resOf(r, 0).(*ssa.Phi); isPhi && !g {
+						g = true
+						for i, e := range phi.Edges {
+							if kk, isKK := constBool(e); isKK && kk && !edgeGuarded(phi.Block().Preds[i], phi.Block(), nil, hasByte) {
+								g = false
+							}
+						}
+					}
+					c.obI("R17.1", r, "true-needs-a-byte", g, "HasContent answers true only when a byte is available (Buffered() > 0 or a non-empty Peek): a stream that fails before its first byte has no content", "a constant true is returned on a path on which no byte was seen")
+				}
+			}
+		}
+	}
 	c.obF("R17.1", hc, "asks-the-buffered-stream", nHC >= 1, "HasContent consults the buffered stream", "")
 	// a wrapper is never shared between two probes: newPeekingReader returns nil or a wrapper it has just allocated
 	npr := p.Fn("rt.newPeekingReader")
